@@ -17,10 +17,14 @@ let mkfmt ty vs bits sh dl =
 let variant = if Array.length Sys.argv > 1 then Sys.argv.(1) else "pp"   (* "pp" | "fp" | "pf" | "ff": B/BL/BLX packer, B<c> packer; p = pinned, f = fixed *)
 let fb = String.length variant = 2 && variant.[0] = 'f'
 let fc = String.length variant = 2 && variant.[1] = 'f'
-let write_offset f old off = Codec.write_offset_var fb fc f old off
+(* argv[4] = "c": the 8-byte UnsignedOffset path refuses a negative displacement (fixes/C17-unsigned64-negative.patch); "u": pinned *)
+let un_checked = Array.length Sys.argv > 4 && Sys.argv.(4) = "c"
+let write_offset f old off = Codec.write_offset_top fb fc un_checked f old off
 (* argv[2] = "c": the (Mem, Imm) form of the x86 ALU group refuses a qword destination with a non-int32 immediate
    (fixes/C17-x86-arith-mem-imm64.patch); "u": the pinned code without the test *)
 let mem_checked = Array.length Sys.argv > 2 && Sys.argv.(2) = "c"
+(* argv[3] = "c": TEST r/m64, MOV m64, IMUL r64 and PUSH (64-bit mode) refuse a non-int32 immediate (fixes/C17-x86-imm64-truncation.patch); "u": pinned *)
+let tm_checked = Array.length Sys.argv > 3 && Sys.argv.(3) = "c"
 
 let nlist = [2; 7; 8; 9; 12; 14; 16; 19; 21; 24; 25; 26; 31; 32; 33; 48; 63; 64]
 let two64 = Z.shift_left Z.one 64
@@ -92,12 +96,21 @@ let () =
          | None -> print_endline "X 0 0 0 0 0")
       | "Y" :: op :: form :: size :: acc :: optsize :: longform :: imm :: _ ->
         let b s = s = "1" in
-        let r = if form = "0" then Codec.arith_reg_imm (cz_of_string op) (cz_of_string size) (b acc) (b optsize) (b longform) (cz_of_string imm)
-                else Codec.arith_mem_imm mem_checked (cz_of_string op) (cz_of_string size) (b longform) (cz_of_string imm) in
+        let r =
+          if op = "8" then
+            (if form = "0" then Codec.test_reg_imm tm_checked (cz_of_string size) (b acc) (b longform) (cz_of_string imm)
+             else Codec.test_mem_imm tm_checked (cz_of_string size) (cz_of_string imm))
+          else if op = "10" then Codec.imul_imm tm_checked (form = "1") (cz_of_string size) (b longform) (cz_of_string imm)
+          else if op = "11" then Codec.push_imm tm_checked (b longform) (cz_of_string imm)
+          else if op = "9" then
+            (if form = "0" then Some (Codec.mov_reg_imm (cz_of_string size) (b acc) (b optsize) (b longform) (cz_of_string imm))
+             else Codec.mov_mem_imm tm_checked (cz_of_string size) (cz_of_string imm))
+          else if form = "0" then Codec.arith_reg_imm (cz_of_string op) (cz_of_string size) (b acc) (b optsize) (b longform) (cz_of_string imm)
+          else Codec.arith_mem_imm mem_checked (cz_of_string op) (cz_of_string size) (b longform) (cz_of_string imm) in
         (match r with
          | Some e ->
            let osz = Z.to_int (z_of_cz e.Codec.ae_opsize) in
-           Printf.printf "Y 1 %d %d %d %s %s %s\n" (if osz = 2 then 1 else 0) (if osz = 8 then 1 else 0) (if e.Codec.ae_short then 1 else 0)
+           Printf.printf "Y 1 %d %d %d %s %s %s\n" (if osz = 2 then 1 else 0) (if osz = 8 && op <> "11" then 1 else 0)   (* PUSH is 64-bit without REX.W *) (if e.Codec.ae_short then 1 else 0)
              (string_of_cz e.Codec.ae_opc) (string_of_cz e.Codec.ae_immsize) (string_of_cz e.Codec.ae_field)
          | None -> print_endline "Y 0 0 0 0 0 0 0")
       | "Z" :: kind :: size :: immr :: imms :: dst :: src :: _ ->
